@@ -425,7 +425,7 @@ theorem concat_sound (shapes : List SShape) (axis : Nat) (ds : SShape) (h : conc
       · congr 1
         apply List.map_congr_left
         intro s _
-        simp only [Function.comp_apply]
+        simp only [Function.comp_apply, concr]
         rw [← getD_map_dflt (fun d => (AExpr.eval v d).toNat) s axis (.lit 0)]
         simp [AExpr.eval]
     · intro d hd
@@ -544,6 +544,503 @@ theorem expandDims_sound (s ds : SShape) (axes : List Int) (h : expandDims s axe
     rcases insertOnes_mem _ _ _ d hd with hd | rfl
     · exact hadm d hd
     · simp [AExpr.eval]
+
+theorem full_sound (dims ds : SShape) (h : full dims = some ds) (v : String → Nat) (hadm : Adm v dims) :
+    ds = dims ∧ ds.map (·.eval v) = (concr v dims).map (fun (n : Nat) => (n : Int)) := by
+  have := normShape_sound dims ds h
+  subst this
+  exact ⟨rfl, evalS_eq_of_adm v _ hadm⟩
+
+theorem zip_concr_all (v : String → Nat) : ∀ (a b : SShape),
+    (a.zip b).all (fun p => affEq p.1 p.2 || isOne p.1) = true →
+    ((concr v a).zip (concr v b)).all (fun p => p.1 == p.2 || p.1 == 1) = true
+  | [], _, _ => by simp [concr]
+  | _ :: _, [], _ => by simp [concr]
+  | x :: xs, y :: ys, h => by
+    simp only [List.zip_cons_cons, List.all_cons, Bool.and_eq_true] at h
+    simp only [concr, List.map_cons, List.zip_cons_cons, List.all_cons, Bool.and_eq_true]
+    refine ⟨?_, zip_concr_all v xs ys h.2⟩
+    have h1 := h.1
+    simp only [Bool.or_eq_true] at h1 ⊢
+    rcases h1 with h1 | h1
+    · left; rw [affEq_eval h1 v]; simp
+    · right; rw [isOne_eval h1 v]; simp
+
+/-- broadcast_to: NumPy accepts the concrete shapes and the result is the target -/
+theorem broadcastTo_sound (s tgt ds : SShape) (h : broadcastTo s tgt = some ds) (v : String → Nat) :
+    ds = tgt ∧ Spec.npBroadcastTo (concr v s) (concr v tgt) = some (concr v ds) := by
+  unfold broadcastTo at h
+  cases hn : normShape tgt with
+  | none => rw [hn] at h; simp at h
+  | some t =>
+    rw [hn] at h
+    have ht := normShape_sound tgt t hn
+    subst ht
+    simp only at h
+    split_ifs at h with hc
+    simp only [Option.some.injEq] at h
+    subst h
+    refine ⟨rfl, ?_⟩
+    unfold Spec.npBroadcastTo
+    have hl1 : (concr v s).length = s.length := by simp [concr]
+    have hl2 : (concr v t).length = t.length := by simp [concr]
+    have hd : (concr v t).drop (t.length - s.length) = concr v (t.drop (t.length - s.length)) := by
+      simp [concr, List.map_drop]
+    rw [hl1, hl2, hd, if_pos ⟨hc.1, zip_concr_all v _ _ hc.2⟩]
+
+/-- pad: every axis grows by its two widths -/
+theorem pad_sound (s ds : SShape) (widths : List (Nat × Nat)) (h : pad s widths = some ds)
+    (v : String → Nat) (hadm : Adm v s) :
+    concr v ds = ((concr v s).zip widths).map (fun p => p.1 + p.2.1 + p.2.2) ∧ Adm v ds
+    ∧ widths.length = (concr v s).length := by
+  unfold pad at h
+  split_ifs at h with hc
+  simp only [Option.some.injEq] at h
+  subst h
+  refine ⟨?_, ?_, by simp [concr, hc]⟩
+  · simp only [concr, List.map_map, List.zip_map_left]
+    apply List.map_congr_left
+    intro p hp
+    have hd : 0 ≤ p.1.eval v := hadm _ (List.of_mem_zip hp).1
+    simp only [Function.comp_apply, AExpr.eval, Prod.map_fst, Prod.map_snd, id_eq]
+    omega
+  · intro d hd
+    obtain ⟨p, hp, rfl⟩ := List.mem_map.mp hd
+    have := hadm _ (List.of_mem_zip hp).1
+    simp only [AExpr.eval]; omega
+
+/-! ### slices and integer indices (`_normalize_slice`, `_normalized_slice_len`, `_is_non_negative`) -/
+
+def toB : SIdx → Spec.BIdx
+  | .int k => .int k
+  | .slice a b c => .slice a b c
+
+theorem isNonNeg_eval {e : AExpr} (h : isNonNeg e = true) (v : String → Nat) : 0 ≤ e.eval v :=
+  (isNonNeg_iff e).mp h v
+
+theorem isNonPos_eval {e : AExpr} (h : isNonPos e = true) (v : String → Nat) : e.eval v ≤ 0 := by
+  have := isNonNeg_eval h v
+  simp only [AExpr.eval] at this; omega
+
+/-- the symbolic branch of `sliceLen` (the axis length is not a Python int) -/
+def sliceLenSym (d : AExpr) (start stop : Option Int) (step : Int) : Except Refusal QExpr :=
+  if start.isSome ∨ stop.isSome then .error .explicitBoundOnSymbolicAxis
+  else if step > 0 then
+    let diff : AExpr := .sub d (.lit 0)
+    if isNonNeg diff then .ok (.fdiv (.sub (.add diff (.lit step)) (.lit 1)) step)
+    else if isNonPos diff then .ok (.aff (.lit 0))
+    else .error .signUnknown
+  else
+    let diff : AExpr := .sub (.sub d (.lit 1)) (.lit (-1))
+    if isNonNeg diff then .ok (.fdiv (.sub (.sub diff (.lit step)) (.lit 1)) (-step))
+    else if isNonPos diff then .ok (.aff (.lit 0))
+    else .error .signUnknown
+
+theorem sliceLen_nonlit (d : AExpr) (hd : isLit d = false) (start stop : Option Int) (step : Int)
+    (hs : step ≠ 0) : sliceLen d start stop step = sliceLenSym d start stop step := by
+  unfold sliceLen sliceLenSym
+  rw [if_neg hs]
+  cases d <;> first | rfl | simp [isLit] at hd
+
+theorem sliceLenSym_sound (d : AExpr) (start stop : Option Int) (step : Int) (hs : step ≠ 0) (q : QExpr)
+    (h : sliceLenSym d start stop step = .ok q) (v : String → Nat) (hd : 0 ≤ d.eval v) :
+    q.eval v = cpyLen (cpyAdjust start stop step (d.eval v)) := by
+  unfold sliceLenSym at h
+  by_cases h0 : start.isSome = true ∨ stop.isSome = true
+  · rw [if_pos h0] at h; cases h
+  rw [if_neg h0] at h
+  simp only [not_or, Bool.not_eq_true, Option.isSome_eq_false_iff, Option.isNone_iff_eq_none] at h0
+  obtain ⟨rfl, rfl⟩ := h0
+  by_cases h1 : step > 0
+  · rw [if_pos h1] at h
+    simp only at h
+    split_ifs at h with h2 h3
+    · -- length provably ≥ 0
+      simp only [Except.ok.injEq] at h
+      subst h
+      have := slice_len_eq_cpython ⟨0, d.eval v, step⟩ hs
+      simp only [ptSliceLen, if_pos h1] at this
+      rw [if_pos (by omega)] at this
+      simp only [QExpr.eval, AExpr.eval, cpyAdjust, if_neg (show ¬ step < 0 by omega)]
+      exact this
+    · -- length provably ≤ 0: it is 0
+      simp only [Except.ok.injEq] at h
+      subst h
+      have hle := isNonPos_eval h3 v
+      simp only [AExpr.eval] at hle
+      simp only [QExpr.eval, AExpr.eval, cpyAdjust, if_neg (show ¬ step < 0 by omega), cpyLen]
+      rw [if_neg (by omega)]
+  · rw [if_neg h1] at h
+    simp only at h
+    have hneg : step < 0 := by omega
+    split_ifs at h with h2 h3
+    · simp only [Except.ok.injEq] at h
+      subst h
+      have := slice_len_eq_cpython ⟨d.eval v - 1, -1, step⟩ hs
+      simp only [ptSliceLen, if_neg h1] at this
+      rw [if_pos (by omega)] at this
+      simp only [QExpr.eval, AExpr.eval, cpyAdjust, if_pos hneg]
+      exact this
+    · simp only [Except.ok.injEq] at h
+      subst h
+      have hle := isNonPos_eval h3 v
+      simp only [AExpr.eval] at hle
+      simp only [QExpr.eval, AExpr.eval, cpyAdjust, if_pos hneg, cpyLen]
+      rw [if_neg (by omega)]
+
+/-- `_normalize_slice` + `_normalized_slice_len`: whenever the real code answers, the
+    symbolic length evaluated at `v` is the length CPython computes for the slice on
+    the concrete axis -/
+theorem sliceLen_sound (d : AExpr) (start stop : Option Int) (step : Int) (q : QExpr)
+    (h : sliceLen d start stop step = .ok q) (v : String → Nat) (hd : 0 ≤ d.eval v) :
+    q.eval v = cpyLen (cpyAdjust start stop step (d.eval v)) ∧ step ≠ 0 := by
+  have hs : step ≠ 0 := by
+    intro h0; unfold sliceLen at h; rw [if_pos h0] at h; cases h
+  refine ⟨?_, hs⟩
+  cases hl : isLit d with
+  | false =>
+    rw [sliceLen_nonlit d hl start stop step hs] at h
+    exact sliceLenSym_sound d start stop step hs q h v hd
+  | true =>
+    cases d with
+    | lit n =>
+      unfold sliceLen at h
+      rw [if_neg hs] at h
+      simp only [Except.ok.injEq] at h
+      subst h
+      have hn : 0 ≤ n := by simpa [AExpr.eval] using hd
+      simp only [QExpr.eval, AExpr.eval]
+      rw [slice_len_eq_cpython _ (by simpa [ptNormSlice] using hs), slice_norm_eq_cpython n hn start stop step hs]
+    | param _ => simp [isLit] at hl
+    | add _ _ => simp [isLit] at hl
+    | sub _ _ => simp [isLit] at hl
+    | scale _ _ => simp [isLit] at hl
+
+/-- the real code declares the sign unknown exactly when the length is neither
+    non-negative for all valuations nor non-positive for all valuations -/
+theorem sliceLenSym_signUnknown_iff (d : AExpr) (step : Int) :
+    sliceLenSym d none none step = .error .signUnknown ↔
+      ¬ (∀ v : String → Nat, 0 ≤ d.eval v) ∧ ¬ (∀ v : String → Nat, d.eval v ≤ 0) := by
+  have e1 : (∀ v : String → Nat, 0 ≤ d.eval v) ↔ isNonNeg (.sub d (.lit 0)) = true := by
+    rw [isNonNeg_iff]; simp [AExpr.eval]
+  have e2 : (∀ v : String → Nat, d.eval v ≤ 0) ↔ isNonPos (.sub d (.lit 0)) = true := by
+    unfold isNonPos; rw [isNonNeg_iff]; simp only [AExpr.eval]
+    constructor <;> intro h v <;> have := h v <;> omega
+  have e3 : (∀ v : String → Nat, 0 ≤ d.eval v) ↔ isNonNeg (.sub (.sub d (.lit 1)) (.lit (-1))) = true := by
+    rw [isNonNeg_iff]; simp only [AExpr.eval]
+    constructor <;> intro h v <;> have := h v <;> omega
+  have e4 : (∀ v : String → Nat, d.eval v ≤ 0) ↔ isNonPos (.sub (.sub d (.lit 1)) (.lit (-1))) = true := by
+    unfold isNonPos; rw [isNonNeg_iff]; simp only [AExpr.eval]
+    constructor <;> intro h v <;> have := h v <;> omega
+  unfold sliceLenSym
+  simp only [Option.isSome_none, Bool.false_eq_true, or_self, if_false]
+  by_cases hp : step > 0
+  · rw [if_pos hp, e1, e2]
+    by_cases h1 : isNonNeg (.sub d (.lit 0)) = true
+    · simp [h1]
+    · by_cases h2 : isNonPos (.sub d (.lit 0)) = true <;> simp [h1, h2]
+  · rw [if_neg hp, e3, e4]
+    by_cases h1 : isNonNeg (.sub (.sub d (.lit 1)) (.lit (-1))) = true
+    · simp [h1]
+    · by_cases h2 : isNonPos (.sub (.sub d (.lit 1)) (.lit (-1))) = true <;> simp [h1, h2]
+
+theorem intOk_sound (d : AExpr) (k : Int) (h : intOk d k = true) (v : String → Nat) (hd : 0 ≤ d.eval v) :
+    Spec.npIntOk (cd v d) k = true := by
+  simp only [intOk, Bool.and_eq_true] at h
+  have h1 := isNonNeg_eval h.1 v
+  have h2 := isNonNeg_eval h.2 v
+  simp only [AExpr.eval] at h1 h2
+  simp only [Spec.npIntOk, cd, decide_eq_true_eq, Int.toNat_of_nonneg hd]
+  omega
+
+/-- an integer index is accepted exactly when it is within the axis for ALL valuations -/
+theorem intOk_iff (d : AExpr) (k : Int) :
+    intOk d k = true ↔ ∀ v : String → Nat, -(d.eval v) ≤ k ∧ k < d.eval v := by
+  simp only [intOk, Bool.and_eq_true, isNonNeg_iff, AExpr.eval]
+  constructor
+  · intro h v; have := h.1 v; have := h.2 v; omega
+  · intro h; exact ⟨fun v => by have := h v; omega, fun v => by have := h v; omega⟩
+
+/-- basic indexing: every result length evaluates to NumPy's (CPython's slice
+    length on the concrete axis), and NumPy accepts the index -/
+theorem index_sound : ∀ (s : SShape) (ix : List SIdx) (qs : List QExpr), index s ix = .ok qs →
+    ∀ (v : String → Nat), Adm v s →
+    qs.map (·.eval v) = (Spec.basicShape (concr v s) (ix.map toB)).map (fun (n : Nat) => (n : Int))
+    ∧ Spec.basicOk (concr v s) (ix.map toB) = true
+  | [], [], qs, h, v, _ => by
+    simp only [index, Except.ok.injEq] at h
+    subst h
+    simp [concr, Spec.basicShape, Spec.basicOk]
+  | d :: ds, .int k :: ix, qs, h, v, hadm => by
+    simp only [index] at h
+    split_ifs at h with hk
+    have hd : 0 ≤ d.eval v := hadm d (by simp)
+    obtain ⟨ih1, ih2⟩ := index_sound ds ix qs h v fun x hx => hadm x (by simp [hx])
+    simp only [concr, List.map_cons, toB, Spec.basicShape, Spec.basicOk, Bool.and_eq_true]
+    exact ⟨ih1, intOk_sound d k hk v hd, ih2⟩
+  | d :: ds, .slice st sp step :: ix, qs, h, v, hadm => by
+    simp only [index] at h
+    have hd : 0 ≤ d.eval v := hadm d (by simp)
+    cases hq : sliceLen d st sp step with
+    | error e => rw [hq] at h; cases h
+    | ok q =>
+      rw [hq] at h
+      cases hr : index ds ix with
+      | error e => rw [hr] at h; cases h
+      | ok qs' =>
+        rw [hr] at h
+        simp only [Except.map, Except.ok.injEq] at h
+        subst h
+        obtain ⟨ih1, ih2⟩ := index_sound ds ix qs' hr v fun x hx => hadm x (by simp [hx])
+        obtain ⟨hlen, hstep⟩ := sliceLen_sound d st sp step q hq v hd
+        simp only [concr, List.map_cons, toB, Spec.basicShape, Spec.basicOk, Bool.and_eq_true,
+          decide_eq_true_eq, List.cons.injEq]
+        refine ⟨⟨?_, ih1⟩, hstep, ih2⟩
+        rw [hlen, Int.toNat_of_nonneg hd, Int.toNat_of_nonneg (slice_len_nonneg _)]
+  | [], _ :: _, _, h, _, _ => by simp [index] at h
+  | _ :: _, [], _, h, _, _ => by simp [index] at h
+
+/-! ### einsum: the symbolic axis-length table concretises to pytato's concrete table -/
+
+/-- concretise a table entry -/
+def cE (v : String → Nat) (p : EAxis × AExpr) : EAxis × Nat := (p.1, cd v p.2)
+
+def keysE (T : List (EAxis × AExpr)) : List EAxis := T.map (·.1)
+
+theorem find_cE (v : String → Nat) (T : List (EAxis × AExpr)) (ax : EAxis) :
+    (T.map (cE v)).find? (·.1 == ax) = (T.find? (·.1 == ax)).map (cE v) := by
+  rw [List.find?_map]; rfl
+
+theorem nodup_keys_unique : ∀ (T : List (EAxis × AExpr)), (keysE T).Nodup →
+    ∀ a m m', (a, m) ∈ T → (a, m') ∈ T → m = m'
+  | [], _, _, _, _, h, _ => by simp at h
+  | (b, n) :: T, hn, a, m, m', h1, h2 => by
+    simp only [keysE, List.map_cons, List.nodup_cons, List.mem_map, not_exists, not_and] at hn
+    rcases List.mem_cons.mp h1 with h1 | h1 <;> rcases List.mem_cons.mp h2 with h2 | h2
+    · cases h1; cases h2; rfl
+    · cases h1; exact absurd rfl (hn.1 _ h2)
+    · cases h2; exact absurd rfl (hn.1 _ h1)
+    · exact nodup_keys_unique T hn.2 a m m' h1 h2
+
+theorem find_some_mem {T : List (EAxis × AExpr)} {ax a0 : EAxis} {seen : AExpr}
+    (h : T.find? (·.1 == ax) = some (a0, seen)) : (ax, seen) ∈ T := by
+  have h1 := List.find?_some h
+  have h2 := List.mem_of_find?_eq_some h
+  simp only [beq_iff_eq] at h1
+  subst h1; exact h2
+
+theorem step_sound (v : String → Nat) (T T' : List (EAxis × AExpr)) (ax : EAxis) (d : AExpr)
+    (hn : (keysE T).Nodup) (h : axisLenStepS T ax d = some T') :
+    Spec.axisLenStep (T.map (cE v)) ax (cd v d) = T'.map (cE v) ∧ (keysE T').Nodup
+    ∧ (∀ p ∈ T', p ∈ T ∨ p.2 = d) := by
+  unfold axisLenStepS at h
+  unfold Spec.axisLenStep
+  rw [find_cE]
+  cases hf : T.find? (·.1 == ax) with
+  | none =>
+    rw [hf] at h
+    simp only [Option.some.injEq] at h
+    subst h
+    refine ⟨by simp [cE], ?_, ?_⟩
+    · have hnot : ax ∉ keysE T := by
+        intro hm
+        obtain ⟨p, hp, rfl⟩ := List.mem_map.mp hm
+        have := List.find?_eq_none.mp hf p hp
+        simp at this
+      simp only [keysE, List.map_append, List.map_cons, List.map_nil]
+      exact List.nodup_append.mpr ⟨hn, by simp, by
+        intro a ha b hb
+        simp only [List.mem_singleton] at hb
+        subst hb
+        exact fun e => hnot (e ▸ ha)⟩
+    · intro p hp
+      rcases List.mem_append.mp hp with hp | hp
+      · exact Or.inl hp
+      · simp only [List.mem_singleton] at hp; subst hp; exact Or.inr rfl
+  | some p0 =>
+    obtain ⟨a0, seen⟩ := p0
+    rw [hf] at h
+    simp only [Option.map_some, cE] at h ⊢
+    have hmem := find_some_mem hf
+    split_ifs at h with h1 h2 h3
+    · simp only [Option.some.injEq] at h; subst h
+      have : cd v seen = cd v d := by unfold cd; rw [affEq_eval h1 v]
+      exact ⟨by rw [if_pos this], hn, fun p hp => Or.inl hp⟩
+    · simp only [Option.some.injEq] at h; subst h
+      have : cd v d = 1 := by unfold cd; rw [isOne_eval h2 v]; rfl
+      refine ⟨?_, hn, fun p hp => Or.inl hp⟩
+      by_cases hc : cd v seen = cd v d
+      · rw [if_pos hc]
+      · rw [if_neg hc, if_pos this]
+    · simp only [Option.some.injEq] at h; subst h
+      have hs1 : cd v seen = 1 := by unfold cd; rw [isOne_eval h3 v]; rfl
+      have hkeys : keysE (T.map fun (x : EAxis × AExpr) => if x.1 == ax then (x.1, d) else (x.1, x.2)) = keysE T := by
+        simp only [keysE, List.map_map]
+        apply List.map_congr_left
+        intro x _
+        simp only [Function.comp_apply]
+        split_ifs <;> rfl
+      refine ⟨?_, by rw [hkeys]; exact hn, ?_⟩
+      · by_cases hc : cd v seen = cd v d
+        · rw [if_pos hc]
+          simp only [List.map_map]
+          apply List.map_congr_left
+          intro x hx
+          obtain ⟨a, m⟩ := x
+          simp only [Function.comp_apply, cE]
+          by_cases ha : (a == ax) = true
+          · simp only [ha, if_true]
+            simp only [beq_iff_eq] at ha
+            subst ha
+            have := nodup_keys_unique T hn a m seen hx hmem
+            subst this
+            rw [← hc]
+          · simp only [ha]; rfl
+        · have hd1 : cd v d ≠ 1 := fun e => hc (by rw [hs1, e])
+          rw [if_neg hc, if_neg hd1]
+          simp only [List.map_map]
+          apply List.map_congr_left
+          intro x _
+          obtain ⟨a, m⟩ := x
+          simp only [Function.comp_apply, cE]
+          by_cases ha : (a == ax) = true <;> simp [ha]
+      · intro p hp
+        obtain ⟨x, hx, rfl⟩ := List.mem_map.mp hp
+        by_cases ha : (x.1 == ax) = true
+        · rw [if_pos ha]; exact Or.inr rfl
+        · rw [if_neg ha]; exact Or.inl hx
+
+theorem operand_sound (v : String → Nat) : ∀ (pairs : List (EAxis × AExpr)) (T T' : List (EAxis × AExpr)),
+    (keysE T).Nodup → operandStepS T pairs = some T' →
+    (pairs.map (cE v)).foldl (fun tbl (p : EAxis × Nat) => Spec.axisLenStep tbl p.1 p.2) (T.map (cE v))
+      = T'.map (cE v)
+    ∧ (keysE T').Nodup ∧ (∀ p ∈ T', p ∈ T ∨ ∃ q ∈ pairs, p.2 = q.2)
+  | [], T, T', hn, h => by
+    simp only [operandStepS, Option.some.injEq] at h
+    subst h
+    exact ⟨rfl, hn, fun p hp => Or.inl hp⟩
+  | (ax, d) :: rest, T, T', hn, h => by
+    simp only [operandStepS] at h
+    cases hs : axisLenStepS T ax d with
+    | none => rw [hs] at h; cases h
+    | some T1 =>
+      rw [hs] at h
+      obtain ⟨e1, n1, m1⟩ := step_sound v T T1 ax d hn hs
+      obtain ⟨e2, n2, m2⟩ := operand_sound v rest T1 T' n1 h
+      refine ⟨?_, n2, ?_⟩
+      · simp only [List.map_cons, List.foldl_cons, cE]
+        rw [e1]; exact e2
+      · intro p hp
+        rcases m2 p hp with hp1 | ⟨q, hq, hpq⟩
+        · rcases m1 p hp1 with hp2 | hp2
+          · exact Or.inl hp2
+          · exact Or.inr ⟨(ax, d), by simp, hp2⟩
+        · exact Or.inr ⟨q, by simp [hq], hpq⟩
+
+theorem zip_cE (v : String → Nat) (d : List EAxis) (s : SShape) :
+    (d.zip s).map (cE v) = d.zip (concr v s) := by
+  simp only [concr, List.zip_map_right]
+  apply List.map_congr_left
+  intro p _; rfl
+
+theorem table_sound (v : String → Nat) : ∀ (ops : List (List EAxis × SShape)) (T T' : List (EAxis × AExpr)),
+    (keysE T).Nodup → tableS T ops = some T' →
+    (ops.map fun o => (o.1, concr v o.2)).foldl
+        (fun tbl (o : List EAxis × Shape) =>
+          (o.1.zip o.2).foldl (fun tbl (p : EAxis × Nat) => Spec.axisLenStep tbl p.1 p.2) tbl) (T.map (cE v))
+      = T'.map (cE v)
+    ∧ (∀ p ∈ T', p ∈ T ∨ ∃ o ∈ ops, p.2 ∈ o.2)
+  | [], T, T', _, h => by
+    simp only [tableS, Option.some.injEq] at h
+    subst h
+    exact ⟨rfl, fun p hp => Or.inl hp⟩
+  | (d, s) :: rest, T, T', hn, h => by
+    simp only [tableS] at h
+    split_ifs at h with hl
+    cases ho : operandStepS T (d.zip s) with
+    | none => rw [ho] at h; cases h
+    | some T1 =>
+      rw [ho] at h
+      obtain ⟨e1, n1, m1⟩ := operand_sound v (d.zip s) T T1 hn ho
+      obtain ⟨e2, m2⟩ := table_sound v rest T1 T' n1 h
+      refine ⟨?_, ?_⟩
+      · simp only [List.map_cons, List.foldl_cons]
+        rw [← zip_cE, e1]; exact e2
+      · intro p hp
+        rcases m2 p hp with hp1 | ⟨o, ho', hpo⟩
+        · rcases m1 p hp1 with hp2 | ⟨q, hq, hpq⟩
+          · exact Or.inl hp2
+          · refine Or.inr ⟨(d, s), by simp, ?_⟩
+            rw [hpq]; exact (List.of_mem_zip hq).2
+        · exact Or.inr ⟨o, by simp [ho'], hpo⟩
+
+theorem axisLenTable_eq (descrs : List (List EAxis)) (shapes : List Shape) :
+    Spec.axisLenTable descrs shapes
+      = (descrs.zip shapes).foldl
+          (fun tbl (o : List EAxis × Shape) =>
+            (o.1.zip o.2).foldl (fun tbl (p : EAxis × Nat) => Spec.axisLenStep tbl p.1 p.2) tbl) [] := rfl
+
+theorem axisLenS_concr (v : String → Nat) (T : List (EAxis × AExpr)) (ax : EAxis) :
+    cd v (axisLenS T ax) = Spec.axisLen (T.map (cE v)) ax := by
+  unfold axisLenS Spec.axisLen
+  rw [find_cE]
+  cases T.find? (·.1 == ax) with
+  | none => simp [cd_one]
+  | some p => simp [cE]
+
+/-- `pt.einsum`: the inferred output shape concretises to the shape of the
+    existing einsum specification (`Spec.einsum`) on the concrete operand shapes -/
+theorem einsum_sound (descrs : List (List EAxis)) (shapes : List SShape) (nout : Nat) (ds : SShape)
+    (h : einsum descrs shapes nout = some ds) (v : String → Nat) (hadm : ∀ s ∈ shapes, Adm v s) :
+    concr v ds = (List.range nout).map
+        (fun k => Spec.axisLen (Spec.axisLenTable descrs (shapes.map (concr v))) (.elem k))
+    ∧ Adm v ds := by
+  unfold einsum at h
+  split_ifs at h with hl
+  cases ht : tableS [] (descrs.zip shapes) with
+  | none => rw [ht] at h; cases h
+  | some tbl =>
+    rw [ht] at h
+    simp only at h
+    split_ifs at h with hall
+    simp only [Option.some.injEq] at h
+    subst h
+    obtain ⟨e, m⟩ := table_sound v (descrs.zip shapes) [] tbl (by simp [keysE]) ht
+    have htab : Spec.axisLenTable descrs (shapes.map (concr v)) = tbl.map (cE v) := by
+      rw [axisLenTable_eq, ← e]
+      congr 1
+      rw [List.zip_map_right]
+      apply List.map_congr_left
+      intro o _; rfl
+    constructor
+    · rw [htab]
+      simp only [concr, List.map_map]
+      apply List.map_congr_left
+      intro k _
+      exact axisLenS_concr v tbl (.elem k)
+    · intro d hd
+      obtain ⟨k, _, rfl⟩ := List.mem_map.mp hd
+      unfold axisLenS
+      cases hf : tbl.find? (·.1 == EAxis.elem k) with
+      | none => simp [AExpr.eval]
+      | some p =>
+        simp only [Option.map_some, Option.getD_some]
+        have hp := List.mem_of_find?_eq_some hf
+        rcases m p hp with hp' | ⟨o, ho, hpo⟩
+        · simp at hp'
+        · exact hadm o.2 (List.of_mem_zip ho).2 _ hpo
+
+/-- every accepted table step merges two lengths NumPy also merges -/
+theorem step_compat (v : String → Nat) (T T' : List (EAxis × AExpr)) (ax a0 : EAxis) (d seen : AExpr)
+    (hf : T.find? (·.1 == ax) = some (a0, seen)) (h : axisLenStepS T ax d = some T') :
+    cd v seen = cd v d ∨ cd v d = 1 ∨ cd v seen = 1 := by
+  unfold axisLenStepS at h
+  rw [hf] at h
+  simp only at h
+  split_ifs at h with h1 h2 h3
+  · left; unfold cd; rw [affEq_eval h1 v]
+  · right; left; unfold cd; rw [isOne_eval h2 v]; rfl
+  · right; right; unfold cd; rw [isOne_eval h3 v]; rfl
 
 end Sym
 end Pt
